@@ -511,7 +511,7 @@ func runPipeline(c Case) (o hx.Outcome) {
 	} else {
 		var bad []byte
 		bad, kind, detail = applyCorr(good, lf.unc, c.Corr, victim.data, other, be.Enc)
-		if tooBig(bad, lf, be) {
+		if tooBig(bad, lf) {
 			o.Class("skipped:header-declares>16MiB")
 			o.Desc = map[string]any{"mode": c.Mode, "skipped": "poisoned object announces a content size above 16 MiB", "corruption": kind, "what": detail}
 			return o
@@ -550,6 +550,10 @@ func runPipeline(c Case) (o hx.Outcome) {
 			o.Fail("C03:"+p.Consumer+":panic", "the consumer panicked on an index entry whose size differs from the (valid) chunk: %s — %s", clip(diff), where)
 		case err == errHang:
 			o.Fail("C03:"+p.Consumer+":hang", "the consumer spun for %s of processor time without returning on an index entry whose size differs from the (valid) chunk — %s", spinBudget, where)
+		case err == nil && p.Consumer == cReadSeeker && !fetched:
+			// the reader was positioned behind the victim and never loaded it: it cannot know,
+			// and what it returned is consistent with every chunk it did see
+			o.Class("inconsistent:victim-not-read")
 		case err == nil && p.Consumer == cReadSeeker:
 			o.Fail("C03:readseeker:shifted-stream", "a valid chunk whose length differs from its index entry was accepted: the reader returned nil (%s) — %s", diff, where)
 		case err == nil:
@@ -592,7 +596,6 @@ func runPipeline(c Case) (o hx.Outcome) {
 	default:
 		o.Class("result:good-data")
 	}
-	_ = strings.HasPrefix
 	if effective {
 		o.Class("effective")
 		if fetched {
